@@ -336,7 +336,20 @@ class Interp:
                     out.append((ctl, p, s))
                     continue
                 if p is None:
+                    # base is not a place expression: if it evaluates to a reference, project through it
+                    if n["e"]["k"] in ("MCall", "Call"):
+                        for c2, v2, s2 in self.eval(n["e"], s):
+                            if c2 != OK:
+                                out.append((c2, v2, s2))
+                            elif v2[0] == "ref":
+                                out.append((OK, v2[1] + (n["name"],), s2))
+                            else:
+                                out.append((OK, ("__val__", self.project(s2, v2, n["name"])), s2))
+                        continue
                     out.append((OK, None, s))
+                    continue
+                if p and p[0] == "__val__":
+                    out.append((OK, ("__val__", self.project(s, p[1], n["name"])), s))
                     continue
                 # auto-deref through references
                 v = self.read(s, p)
@@ -366,6 +379,8 @@ class Interp:
         for ctl, p, s in self.place_of(n, st):
             if ctl != OK:
                 out.append((ctl, p, s))
+            elif p is not None and p[0] == "__val__":
+                out.append((OK, p[1], s))
             elif p is not None:
                 out.append((OK, self.read(s, p), s))
             else:
@@ -381,6 +396,13 @@ class Interp:
         for ctl, p, s in self.place_of(n["e"], st):
             if ctl != OK:
                 out.append((ctl, p, s))
+            elif p is not None and p[0] == "__val__":
+                v = p[1]
+                if v[0] in ("str", "sstr", "abs", "unk", "ref", "fnref", "closure"):
+                    out.append((OK, v, s))
+                else:
+                    s3, p3 = self.newtemp(s, v)
+                    out.append((OK, ("ref", p3), s3))
             elif p is not None:
                 out.append((OK, ("ref", p), s))
             else:
@@ -794,12 +816,13 @@ class Interp:
             for ctl, p, s2 in self.place_of(n["l"], s):
                 if ctl != OK:
                     out.append((ctl, p, s2))
-                elif p is None:
+                elif p is None or p[0] == "__val__":
                     out.append((OK, UNIT, s2))
                 else:
+                    old = self.read(s2, p) if self.module is not None and hasattr(self.module, "on_assign") else None
                     s3 = self.write(s2, p, v)
                     if self.module is not None and hasattr(self.module, "on_assign"):
-                        s3 = self.module.on_assign(self, n, p, v, s3)
+                        s3 = self.module.on_assign(self, n, p, v, s3, old)
                     out.append((OK, UNIT, s3))
             return out
         return self.then(self.eval(n["r"], st), f)
@@ -810,7 +833,7 @@ class Interp:
             nv = self.binop(n["op"].rstrip("="), l, r)
             out = []
             for ctl, p, s2 in self.place_of(n["l"], s):
-                if ctl == OK and p is not None:
+                if ctl == OK and p is not None and p[0] != "__val__":
                     out.append((OK, UNIT, self.write(s2, p, nv)))
                 else:
                     out.append((OK, UNIT, s2))
@@ -871,7 +894,13 @@ class Interp:
     def values_equal(self, a, b):
         """True/False when decidable, None when unknown"""
         if a[0] == "ref" or b[0] == "ref":
-            return None
+            st = getattr(self, "_eq_state", None)
+            if st is None:
+                return None
+            while a[0] == "ref":
+                a = self.read(st, a[1])
+            while b[0] == "ref":
+                b = self.read(st, b[1])
         if is_unk(a) or is_unk(b):
             return None
         if a[0] == "abs" or b[0] == "abs":
@@ -958,6 +987,7 @@ class Interp:
 
         def f(vals, s):
             l, r = self.deref_val(s, vals[0]), self.deref_val(s, vals[1])
+            self._eq_state = s
             if self.module is not None and hasattr(self.module, "binary"):
                 res = self.module.binary(self, n, l, r, s)
                 if res is not None:
@@ -1042,7 +1072,9 @@ class Interp:
             if ctl != OK:
                 out.append((ctl, p, s))
                 continue
-            if p is not None:
+            if p is not None and p[0] == "__val__":
+                recv_vals = [(OK, p[1], s)]
+            elif p is not None:
                 cur = self.read(s, p)
                 recv_vals = [(OK, cur if cur[0] == "ref" else ("ref", p), s)]
             else:
@@ -1095,6 +1127,7 @@ class Interp:
         return [(OK, unk("apply"), st)]
 
     def call(self, callee, args, st, n):
+        self._eq_state = st
         if callee is None:
             return [(OK, unk("call"), st)]
         # module intrinsics first
